@@ -69,6 +69,15 @@ func runC17(bc *BCase) (*CaseStats, error) {
 				return &VD{K: "s", Z: 4, N: bc.Seed + uint64(i)}
 			case "ramp":
 				return &VD{K: "s", Z: 1, D: i % int(e.MaxArrElem*3/4+1), N: bc.Seed + uint64(i)}
+			case "mix":
+				// short streams dominated by elements near the inline limit and near a quarter slab:
+				// leaves that close exactly at the target size, tails that underflow, siblings that cannot lend
+				cls := []int{0, 8, 3, 4, 8, 7, 8, 2, 8, 8, 8, 3}
+				h := mix64(bc.Seed*977 + uint64(i))
+				if i >= n-1-int(bc.Seed%3) && bc.Seed%2 == 0 {
+					return &VD{K: "u", N: uint64(i)} // tiny tail: the last leaf underflows
+				}
+				return &VD{K: "s", Z: cls[h%uint64(len(cls))], D: int(h>>8%7) - 3, N: bc.Seed*1000 + uint64(i)}
 			case "hugeend":
 				if i == n-1 {
 					return &VD{K: "s", Z: 4 + bc.Z%3, N: bc.Seed}
@@ -642,9 +651,11 @@ func init() {
 			bc.Seed = rapid.Uint64Range(0, 1000).Draw(t, "seed")
 			switch bc.Kind {
 			case "arrbatch":
-				bc.Prog = rapid.SampledFrom([]string{"const", "alt", "ramp", "hugeend", "fill", "fill"}).Draw(t, "prog")
+				bc.Prog = rapid.SampledFrom([]string{"const", "alt", "ramp", "hugeend", "fill", "fill", "mix", "mix", "mix"}).Draw(t, "prog")
 				bc.Z = rapid.SampledFrom([]int{0, 0, 1, 1, 2, 3, 4, 5, 7}).Draw(t, "z")
-				if rapid.IntRange(0, 4).Draw(t, "bigN") == 0 {
+				if bc.Prog == "mix" {
+					bc.N = rapid.IntRange(1, 24).Draw(t, "nmix")
+				} else if rapid.IntRange(0, 4).Draw(t, "bigN") == 0 {
 					bc.N = rapid.IntRange(0, big).Draw(t, "nbig")
 				} else {
 					bc.N = rapid.IntRange(0, 200).Draw(t, "n")
